@@ -8,7 +8,7 @@ def knobs(rnd):
 
 
 def run(tier):
-    progcheck.run(PROP, tier, knobs, 300, 8000,
+    progcheck.run(PROP, tier, knobs, 900, 12000,
                   rule='stratified random programs whose rule bodies nest ;, ->, -> without else and \\+ arbitrarily (cuts only in '
                        'transparent positions) with continuations after the construct; leaf goals have 0-3 solutions and bind '
                        'distinct variables; non-trivial = the reference yields >= 1 answer; distinct = distinct (program, query)')
